@@ -19,7 +19,7 @@ def grad_history(rnd, label):
 
 def run(ctx):
     rnd = random.Random(ctx.seed + 505)
-    n = 360 if ctx.quick else 7000
+    n = 360 if ctx.quick else 2500
     scens = [grad_history(rnd, "g%d" % i) for i in range(n)]
     gl.run_grid(ctx, [("grad", scens)], gl.OBS_GRAD | gl.OBS_ROUTES, "C05")
     ctx.assume("the gradient of every reproduced function (monomials of the interpolation space, affine functions for local / wavelet grids) is compared with differentiate() at 1e-7; for smooth loaded data differentiate() is compared with 4th order central differences of evaluate() at 1e-5, at points that keep away from node coordinates (kinks) and with steps that stay inside one cell; the comparison is done in the transformed coordinates, so the chain-rule factor of a linear domain transform is included")
